@@ -223,7 +223,10 @@ def comparable(out):
         if s[0] == "exc" and s[1] in ("UnboundLocalError", "NameError", "PteraNameError"):
             s = ("exc", "NameError-family", "")
         steps.append(s)
-    return (res, tuple(steps), tuple(out["log"]), tuple(sorted(out["watch"].items())), tuple(sorted(out["globals"].items())))
+    fam = ("UnboundLocalError", "NameError", "PteraNameError")
+    # a context manager's __exit__ logs the name of the exception class it sees
+    log = tuple(tuple("NameError-family" if (e[0] == "CM-exit" and x in fam) else x for x in e) for e in out["log"])
+    return (res, tuple(steps), log, tuple(sorted(out["watch"].items())), tuple(sorted(out["globals"].items())))
 
 
 def scripts():
